@@ -218,7 +218,18 @@ def nontrivial_key(c, r):
     return tags
 
 
-def run_stream(chk, count, nmax, variant="matrix", with_model=True):
+GETS = __import__("re").compile(r"(?:dg|pg|mg)\d+,?")
+
+
+def strip_gets(line):
+    """the storage get calls of a result line removed (which blocks are read back, and in which order, is the subject of C09 only)"""
+    parts = line.split("|")
+    if len(parts) >= 2:
+        parts[1] = ";".join(GETS.sub("", c).rstrip(",") for c in parts[1].split(";"))
+    return "|".join(parts)
+
+
+def run_stream(chk, count, nmax, variant="matrix", with_model=True, gets_matter=True):
     """generates `count` fault-free cases, runs implementation and model; returns (cases, parsed results, fvh, fvm)"""
     rnd = random.Random(chk.seed)
     fvh = core.build_harness(variant)
@@ -245,7 +256,7 @@ def run_stream(chk, count, nmax, variant="matrix", with_model=True):
         try:
             fvm = core.build_fvm()
             model = core.run_stream(fvm, "recon", lines)
-            chk.correspond("recon", variant, lines, impl, model)
+            chk.correspond("recon", variant, lines, impl, model, soft=None if gets_matter else strip_gets)
         except core.BuildError as e:
             chk.broken.append(("correspondence", "recon[model build]", {"detail": str(e)[-1500:]}))
     return cases, lines, impl, parsed, fvh, fvm
